@@ -78,13 +78,17 @@ def build(img, prof, size_bytes=None):
                       note={k: v for k, v in prof.items() if k != "when"}, tok_bytes=tokb)
 
 
-def make_trace(tid, rng, nops=25):
+def make_trace(tid, rng, nops=25, **opt):
     ext = rng.random() < 0.6
     cb = rng.choice([14, 16] if ext else [9, 12, 16])
     cs = 1 << cb
     esz = 16 if ext else 8
     l2_real = cs // esz
     nc = rng.randrange(3, 40)
+    if opt.get("many"):  # more L2 tables than the 128-entry L2 cache holds
+        ext, cb = False, 9
+        cs, esz, l2_real = 512, 8, 64
+        nc = rng.randrange(8400, 9000)
     datafile = rng.random() < 0.25
     npos = nc + 2
     pos = list(range(0 if datafile else 1, npos + 1))
@@ -151,7 +155,7 @@ def make_trace(tid, rng, nops=25):
     b = disk.Built(open=lambda: _open(vf, dvf, backing), cell=cellB, size=size_b, bases={0: info["data_base"], 1: 0}, has_parent=back >= 0)
     s = b.open()
     fresh = b.open()
-    rec = record.Recorder(s, size_b, probe=fresh.readoffset)
+    rec = record.Recorder(s, size_b, probe=fresh.readoffset, align=opt.get("align"))
     record.random_ops(rec, rng, size_b, nops, unit=cs, big=min(6 * cs + 4096, 2 << 20))
     geo = b.geo(nfiles=2)
     timg = {"ext": ext, "datafile": datafile, "nc": nc, "s": S, "t": t, "h": h,
